@@ -98,7 +98,8 @@ fn exec_inner(req: &str) -> Option<String> {
                 _ => format!("{}=_", v),
             })
             .collect();
-        out.insert(parts.join(","));
+        // the empty binding (an answer to a variable-free goal) is shown as `T`: "one answer" and "no answer" differ
+        out.insert(if parts.is_empty() { "T".to_string() } else { parts.join(",") });
     }
     Some(format!("[{}]", out.into_iter().collect::<Vec<_>>().join(";")))
 }
@@ -279,10 +280,37 @@ impl Prop for C18 {
                 facts.push(f);
             }
         }
+        if rng.chance(1, 4) {
+            // identifiers far apart (a dictionary of millions of terms): entities e and e + 2^21 / 2^22 / 2^31 - 1 are
+            // different terms, whatever a compact encoding of a triple makes of them
+            stats.hit("wide_identifiers");
+            for f in facts.iter_mut() {
+                if rng.chance(1, 2) {
+                    f.2 += *rng.pick(&[1u32 << 21, 1 << 22, 3 << 21, (1 << 31) - 8]);
+                }
+                if rng.chance(1, 4) {
+                    f.0 += *rng.pick(&[1u32 << 21, 1 << 22]);
+                }
+            }
+        }
         let rule_names: [[&str; 3]; 4] = [["x", "y", "z"], ["v0", "v1", "v2"], ["X", "Y", "Z"], ["v1", "v0", "x"]];
         let names = rng.pick(&rule_names);
         let rules = gen_rules(rng, names, facts.len(), stats);
-        let goal = gen_goal(rng, stats);
+        let mut goal = gen_goal(rng, stats);
+        if !facts.is_empty() && rng.chance(1, 6) {
+            // a closed goal that is a near miss of a stored fact (one component differs by little, or by exactly a power of
+            // two): it must not be answered from the fact
+            stats.hit("g_near_miss_of_a_fact");
+            let f = *rng.pick(&facts);
+            let low = |x: u32| x & ((1 << 21) - 1);
+            let g = match rng.below(4) {
+                0 => (f.0, f.1 + 1, low(f.2)),
+                1 => (low(f.0), f.1, low(f.2)),
+                2 => (f.0, f.1, f.2 ^ 1),
+                _ => (f.0, f.1 + (f.2 >> 21), low(f.2)),
+            };
+            goal = (cst(g.0), cst(g.1), cst(g.2));
+        }
         stats.hit(&format!("facts_{}", facts.len()));
         stats.hit(&format!("rules_{}", rules.len()));
         line(&facts, &rules, &goal)
